@@ -60,7 +60,10 @@ class World:
         self.real_cids = [hashlib.new(self.halgo, c).hexdigest() for c in self.contents]
         self.cids = list(self.real_cids)
         if fake_cid:
-            self.cids.append("f" * len(self.real_cids[0]) if self.real_cids else "f" * 64)
+            # a cid that was never stored: the upper-case spelling of a real digest (a different identifier for the
+            # store, which shards cids as supplied), or all 'f' when the digest has no letters
+            up = self.real_cids[0].upper() if self.real_cids else "f" * 64
+            self.cids.append(up if up not in self.real_cids else "f" * len(up))
         self.NC = len(self.cids)
         self.fake = self.NC - 1 if fake_cid else None
         # distinct metadata cells per pid: effective format string
@@ -356,7 +359,8 @@ class World:
     def native_escapes(self):
         """native mode: files created outside the store root, or inside it at a location that is not hash-derived"""
         import re
-        ok = re.compile(r"^/s/(hashstore\.yaml|(objects|metadata|refs/(pids|cids))(/[0-9a-f]+)+(_delete)?|"
+        ok = re.compile(r"^/s/(hashstore\.yaml|(objects|metadata|refs/pids)(/[0-9a-f]+)+(_delete)?|"
+                        r"refs/cids(/[0-9a-fA-F]+)+(_delete)?|"
                         r"(objects|metadata|refs)/tmp/[^/]+)$")
         out = []
         for k in self.nb.snapshot("/"):
